@@ -3,14 +3,22 @@
 Proof: lean/Reduino/Props/C13.lean + GenOb/Pio.lean (partition of the CURRENT registry by decide +kernel).
 Ties: validate (model on Gen.registry vs validate_platform_board), write_project (model text / parsed form vs the real
 file read back with configparser; main.cpp bytes; directory listing; audit of touched paths), and the INI-reader model
-vs Python's configparser on generated INI texts."""
+vs Python's configparser on generated INI texts.
+
+write_project runs over FRESH directories (first stream) and over RE-USED project directories (second stream, own PRNG): the directory
+already holds a src/main.cpp and/or platformio.ini left by an earlier generation (another source / the same source / the same text with
+other line terminators, BOM, Unicode normal form, trailing newline ...) or by something else (bytes that are not UTF-8, UTF-16, empty file,
+a longer file that starts with the new source, an INI with extra sections); the same oracles apply after the new generation: main.cpp is
+the given source byte for byte and platformio.ini reads back as given — "always writes" holds whatever was there before."""
 from __future__ import annotations
 
 import configparser
 import importlib
 import os
+import random
 import shutil
 import sys
+import unicodedata
 from pathlib import Path
 
 import common
@@ -22,6 +30,7 @@ TRUSTED = [
     "the line-level INI reader model (tied to Python configparser(interpolation=None) by differential testing here)",
     "text -> lines splitting, the final .rstrip() and UTF-8 file round-trip are covered by the tie only",
     "filesystem facts (main.cpp verbatim, nothing outside the project dir) rest on the audit hook + directory listing",
+    "re-used project directories: the stale contents are a finite family (text variants of the new source, raw byte patterns, earlier generations)",
 ]
 
 _AUDIT = {"on": False, "events": []}
@@ -94,6 +103,42 @@ def gen_port(rng):
     n = rng.randint(1, 14)
     s = "".join(rng.choice(PORT_CHARS) for _ in range(n)).strip()
     return s or "p"
+
+
+REUSE_SOURCES = [
+    "void setup() {}\nvoid loop() {}\n", "// héllo — ünïcode ✓\nvoid setup(){}\nvoid loop(){}\n", "int x;\n", "int x;\r", "a\r\nb\r\n", "a\nb\rc\r\nd",
+    "no newline at end", "\n", "#include <Arduino.h>\r\n\r\nvoid setup() {\r\n  pinMode(13, OUTPUT);\r\n}\r\nvoid loop() {}\r\n", "caf\u00e9 \u212b\n",
+    "tab\tand  trailing  \n\n\n", "x\x0by\x0cz\x1c\x85\u2028w\n",
+]
+
+
+def text_variants(s: str):
+    """texts a careless comparison (newline translation, strip, normalisation, case, prefix) could take for `s`"""
+    out = [s, s.replace("\r\n", "\n"), s.replace("\r\n", "\n").replace("\r", "\n"), s.replace("\r\n", "\n").replace("\n", "\r\n"),
+           s.replace("\r\n", "\n").replace("\n", "\r"), s.replace("\r", "\n"), s.replace("\n", "\r"), s + "\n", s + "\r\n", s.rstrip("\n"), s.rstrip(), s.strip(),
+           "\ufeff" + s, s.upper(), s.lower(), s[:-1], s + s, s + "// more\n", unicodedata.normalize("NFD", s), unicodedata.normalize("NFKC", s),
+           s.replace("\t", "    "), s.replace("  ", " "), s.replace("\x0b", "\n").replace("\x0c", "\n").replace("\x85", "\n").replace("\u2028", "\n")]
+    return out
+
+
+def gen_stale(rng, src: str):
+    """what a re-used project directory holds before the generation under test: (description, main.cpp bytes | None, platformio.ini bytes | None | 'prev')"""
+    r = rng.random()
+    if r < 0.6:
+        vs = text_variants(src)
+        i = rng.randrange(len(vs))
+        main = vs[i].encode("utf-8")
+        how = f"text-variant-{i}" + ("(identical)" if vs[i] == src else "")
+    elif r < 0.9:
+        raw = [src.encode("latin-1", "replace") + b"\xe9\n", src.encode("utf-16"), b"\xff\xfe\x00\x80garbage", b"", src.encode("utf-8") + b"\x80",
+               b"\xc3" + src.encode("utf-8"), src.encode("utf-8")[:-1], b"\x00" * 5, src.encode("utf-8").replace(b"\n", b"\n\x00")]
+        i = rng.randrange(len(raw))
+        main, how = raw[i], f"raw-bytes-{i}"
+    else:
+        main, how = None, "no-main.cpp"
+    q = rng.random()
+    ini = "prev" if q < 0.6 else None if q < 0.75 else rng.choice([b"\xff\xfe[env", b"", b"[env:old]\nplatform = x\n[env:other]\nboard = y\n", b"[platformio]\ndefault_envs = zz\n"])
+    return how, main, ini
 
 
 def gen_ini_text(rng):
@@ -178,33 +223,65 @@ def run(ctx: Ctx) -> int:
         libs = [rng.choice(LIBS + ["", ""]) for _ in range(rng.randint(0, 6))]
         if rng.random() < 0.2:
             libs = None if rng.random() < 0.5 else []
-        cases.append((plat, board, port, libs, rng.choice(sources)))
+        cases.append((plat, board, port, libs, rng.choice(sources), None))
     # out-of-domain stream: exactly one ill-formed ingredient (classified, not generated into the theorem's domain)
     for port in [" COM3", "COM3 ", "\tCOM3"]:
-        cases.append(("atmelavr", "uno", port, ["Servo"], sources[0]))
+        cases.append(("atmelavr", "uno", port, ["Servo"], sources[0], None))
+    # re-use stream (own PRNG, so the streams above and below stay what they were): the directory already holds files
+    rng2 = random.Random(f"{ctx.seed}:C13:reuse")
+    reuse = []
+    for src in REUSE_SOURCES:                       # every source against every variant of itself, once
+        for j, v in enumerate(text_variants(src)):
+            reuse.append((src, (f"text-variant-{j}" + ("(identical)" if v == src else ""), v.encode("utf-8"), "prev")))
+    for i in range(ctx.n(250, 3000)):
+        src = rng2.choice(REUSE_SOURCES + sources)
+        reuse.append((src, gen_stale(rng2, src)))
+    for src, stale in reuse:
+        plat = rng2.choice(sorted(plats))
+        board = rng2.choice(sorted(plats[plat]))
+        libs = [rng2.choice(LIBS + [""]) for _ in range(rng2.randint(0, 4))]
+        cases.append((plat, board, gen_port(rng2), libs, src, stale))
     lines = []
-    for plat, board, port, libs, src in cases:
+    for plat, board, port, libs, src, stale in cases:
         ll = "-" if not libs else ",".join(hexs(l) for l in libs)
         lines.append(f"ini|{hexs(port)}|{hexs(plat)}|{hexs(board)}|{ll}")
     model = ctx.lean.drive(lines)
-    for (plat, board, port, libs, src), line, m in zip(cases, lines, model):
+    for (plat, board, port, libs, src, stale), line, m in zip(cases, lines, model):
         shutil.rmtree(root, ignore_errors=True)
         root.mkdir(parents=True)
+        replay = {"platform": plat, "board": board, "port": port, "libs": libs, "source": src}
+        if stale is not None:
+            how, old_main, old_ini = stale
+            if old_ini == "prev":       # an earlier generation with other settings (any registered pair)
+                p0 = rng2.choice(sorted(plats))
+                pio.write_project(root, "// earlier sketch\n", port=gen_port(rng2), platform=p0, board=rng2.choice(sorted(plats[p0])), lib_deps=[rng2.choice(LIBS)])
+                (root / "src" / "main.cpp").unlink()
+            elif old_ini is not None:
+                (root / "platformio.ini").write_bytes(old_ini)
+            if old_main is not None:
+                (root / "src").mkdir(exist_ok=True)
+                (root / "src" / "main.cpp").write_bytes(old_main)
+            replay["project_dir_before"] = {"how": how, "src/main.cpp": None if old_main is None else old_main.hex(),
+                                            "src/main.cpp (repr)": None if old_main is None else repr(old_main)[:200],
+                                            "platformio.ini": old_ini if isinstance(old_ini, (str, type(None))) else repr(old_ini)}
+            ctx.count("reuse:" + how.split("-")[0] + ("(identical)" if "(identical)" in how else ""))
         before = set(os.listdir(ctx.work))
         _AUDIT["events"] = []
         _AUDIT["on"] = True
-        replay = {"platform": plat, "board": board, "port": port, "libs": libs, "source": src}
         try:
             pio.write_project(root, src, port=port, platform="".join(list(plat)), board="".join(list(board)), lib_deps=libs)
         except Exception as e:  # noqa: BLE001  — every case here is a registered pair: a refusal is the property failing, not the harness
             _AUDIT["on"] = False
-            ctx.fail("project:registered-pair-refused", f"write_project refused a registered (platform, board) pair: {type(e).__name__}: {str(e)[:160]}", replay)
+            if stale is not None:
+                ctx.fail("reuse:refused", f"write_project into a directory that already holds a project ({stale[0]}) raised {type(e).__name__}: {str(e)[:160]}", replay)
+            else:
+                ctx.fail("project:registered-pair-refused", f"write_project refused a registered (platform, board) pair: {type(e).__name__}: {str(e)[:160]}", replay)
             continue
         finally:
             _AUDIT["on"] = False
         ctx.cov["traces_validated_against_impl"] += 1
         in_domain = wf_value(port)
-        ctx.case(line, nontrivial=bool(libs) or not board.replace("_", "").isalnum(), sample={"request": replay, "model": m[:160]} if len(ctx.cov["samples"]) < 3 else None)
+        ctx.case(line + ("" if stale is None else "|reuse:" + stale[0]), nontrivial=bool(libs) or not board.replace("_", "").isalnum() or stale is not None, sample={"request": replay, "model": m[:160]} if len(ctx.cov["samples"]) < 3 else None)
         # filesystem facts
         listing = sorted(str(p.relative_to(root)) for p in root.rglob("*"))
         if listing != ["platformio.ini", "src", "src/main.cpp"]:
@@ -217,7 +294,11 @@ def run(ctx: Ctx) -> int:
         except OSError:
             got_src = None
         if got_src != src.encode("utf-8"):
-            ctx.fail("fs:main.cpp", "src/main.cpp is not the given source verbatim", replay)
+            if stale is not None:
+                ctx.fail("reuse:main.cpp", f"src/main.cpp is not the given source verbatim after generating into a directory that already held one ({stale[0]}): "
+                         f"on disk {got_src[:80]!r}, given {src.encode('utf-8')[:80]!r}", replay)
+            else:
+                ctx.fail("fs:main.cpp", "src/main.cpp is not the given source verbatim", replay)
         text = (root / "platformio.ini").read_bytes().decode("utf-8")
         mtext = bytes.fromhex(m.split(" ")[0][len("text=x"):]).decode("utf-8")
         mparsed = m.split(" ")[1][len("parsed="):]
@@ -262,7 +343,9 @@ def run(ctx: Ctx) -> int:
         if m != impl:
             ctx.tie_diff("tie ini-reader (parseLines vs configparser)", t, m, impl)
     ctx.cov["rule"] = ("validate: all registry pairs + sampled near-miss names (case, prefix/suffix, -/_ swaps, blanks); write_project: random valid "
-                       "(platform, board), printable ports, library lists with duplicates/empties, ASCII and non-ASCII sources; INI texts generated "
+                       "(platform, board), printable ports, library lists with duplicates/empties, ASCII and non-ASCII sources, into a fresh directory and "
+                       "into re-used ones (stale main.cpp = the same text with other line terminators / BOM / normal form / case / prefix / suffix, or raw "
+                       "non-UTF-8 / UTF-16 / empty bytes; stale platformio.ini of an earlier generation or foreign bytes); INI texts generated "
                        "from a grammar of sections/options/continuations/comments/blank lines; non-trivial = accepted pair or known platform / "
                        "project with libraries or a hyphenated board / INI text with at least one section")
     return ctx.finish(TRUSTED, search=None)
